@@ -1621,7 +1621,7 @@ func addBytealgIntrinsics(t map[string]Intrinsic) {
 	t["strconv.Atoi"] = func(m *Machine, fr *Frame, fn *ssa.Function, a []Value) Value {
 		s, ok := a[0].(string)
 		if !ok {
-			m.unsupported("strconv.Atoi of symbolic string")
+			return notHandled // byte-symbolic input: interpret the real strconv.Atoi
 		}
 		v, err := strconv.Atoi(s)
 		if err != nil {
